@@ -31,6 +31,9 @@ def norm_fact(pred, a, b):
     return (pred, a, b)
 
 
+_CALL_NAMES_SEEN = set()
+
+
 class Facts:
     def __init__(self, fn):
         self.fn = fn
@@ -490,6 +493,10 @@ class Matcher:
                 return None
             return env if pat[1] in (d.index, d.name) else None
         if kind == "call":
+            if pat[1] is not None and pat[1] not in _CALL_NAMES_SEEN:
+                _CALL_NAMES_SEEN.add(pat[1])
+                from . import build
+                build.note_requested(pat[1], bool(self.mod.by_cname.get(pat[1])))
             if d is None or d.is_param or d.op != "call":
                 return None
             if pat[1] is not None and self.mod.callee_cname(d) != pat[1]:
